@@ -328,7 +328,38 @@ class LsmWatch:
                 "levels": [list(level) for level in self.lsm._levels]}
 
 
-def diagnose_lsm(cap: dict, allowed: set, got, lsm, overlap_seen: bool) -> str:
+class FlushOrderWatch:
+    """Read-only: did a frozen memtable's flush complete (leave the immutable list) while an OLDER frozen memtable was still
+    being written?  Also: were two flushes with different write times (pages = keys // 16) ever in flight together?"""
+
+    def __init__(self, lsm):
+        self.lsm = lsm
+        self.prev = list(lsm._immutable_memtables)
+        self.inverted = False
+        self.different_write_times = False
+        self.younger_waited = False
+
+    def observe(self):
+        now = list(self.lsm._immutable_memtables)
+        for i, m in enumerate(self.prev):
+            if m not in now and any(o in now for o in self.prev[:i]):
+                self.inverted = True
+        if len(now) >= 2 and len({max(1, len(m._data) // 16) for m in now}) >= 2:
+            self.different_write_times = True
+        if getattr(self.lsm, "_written_sstables", None):
+            self.younger_waited = True
+        self.prev = now
+
+
+def order_suffix(overlap_seen: bool, flush_inverted: bool) -> str:
+    if overlap_seen:
+        return "after-overlapping-compactions"
+    if flush_inverted:
+        return "after-out-of-order-flush-completion"
+    return "compactions-never-overlapped"
+
+
+def diagnose_lsm(cap: dict, allowed: set, got, lsm, overlap_seen: bool, flush_inverted: bool = False) -> str:
     """Name the cause of a bad LSM read from the contents captured when the
     read began.  The verdict itself never depends on this; it only makes the
     signature narrow (one signature per mechanism)."""
@@ -339,7 +370,7 @@ def diagnose_lsm(cap: dict, allowed: set, got, lsm, overlap_seen: bool) -> str:
         # the read agrees with what the structures held when it began: the contents were wrong
         if in_flush:
             return "held-only-by-flushing-memtable"
-        suffix = "after-overlapping-compactions" if overlap_seen else "compactions-never-overlapped"
+        suffix = order_suffix(overlap_seen, flush_inverted)
         if any(norm(v) in allowed for _, v in view[1:]):
             return f"newer-entry-below-older/{suffix}"
         if None in allowed and got is not None:
